@@ -32,6 +32,15 @@ CHECKS = {
     "C01": dict(tech="offline trace oracle (documented-edge state machine with cause attribution, callback pairing, evaluation-pass and running-count rules) over dense state observations recorded by the core_exec interpreter running generated lifecycle programs with scripted re-entrant callbacks; plain build, both driving modes",
                 text="Hundreds (quick) to tens of thousands (thorough) of generated multi-module histories with every (state, call) pair issued from outside and from inside each callback kind and all eval/start result combinations are executed against the real library; the oracle judges every observed state change, every lifecycle return code, every callback and every evaluation pass. Histories are sampled, not enumerated.",
                 ref="C01"),
+    "C02": dict(tech="offline trace oracle over messaging traces with unique payload tokens (eligibility from observed states + tracked subscription sets, exactly-once, completeness at loop-run end, auto-free release timing from the accounting allocator's free events); plain build, both driving modes",
+                text="Generated many-to-many tell/publish/broadcast histories (literal and regex subscriptions, state changes, quit with mail pending, mailbox overflow bursts, auto-free fan-out 0/1/n) run against the real library; every delivery is matched to its send through the unique payload and judged for eligibility, uniqueness, content and loss, every auto-free payload for exactly-once release at the right time.",
+                ref="C02"),
+    "C08": dict(tech="offline trace oracle: linear scan per recipient of delivery order against non-overlapping send intervals (unique payload tokens), poison-pill before/after rules; ordering + messaging profiles with batching, pause/resume, several loop runs; plain build, both modes",
+                text="Per-recipient order of first-time deliveries is compared with the order of the send calls across tell/publish/broadcast, batches, handler invocations, loop restarts and the final flush; pills must neither overtake earlier mail nor let later mail through.",
+                ref="C08"),
+    "C19": dict(tech="offline trace oracle: every system-flagged delivery must be backed by an observed loop event or module transition of the named module (counting, per recipient), tick-rate bound from trace timestamps, count-based completeness for literal subscriptions held over whole loop runs; sysnotif profile, plain build, both modes",
+                text="Transitions are the module state changes observed at every call/callback boundary; received system notifications are counted against them per (recipient, topic, named module) in both directions where the statement is unambiguous; tick notifications are bounded by elapsed time over period.",
+                ref="C19"),
 }
 
 NOT_YET = "check not built yet in this round (work in progress, see DESIGN.md §3 for the planned monitor)"
